@@ -60,6 +60,7 @@ type Snap struct {
 	DSnap       int64       `json:"distributor_snap_period"`
 	DVotes      [][2]int64  `json:"distributor_votes"` // (validator index, height)
 	DProposer   int64       `json:"distributor_proposer"`
+	NextPlanDue bool        `json:"upgrade_next_plan_due"` // a next plan exists and its upgrade time is not after the block time
 }
 
 func keyCode(k string) uint64 {
@@ -180,6 +181,9 @@ func TakeSnap(c *abci.Chain) Snap {
 	}
 	s.DProposer = -1
 	hx.Try(func() { s.DProposer = valIdx(dk.GetPreviousProposerConsAddr(ctx).String()) })
+	if np, err := c.App.UpgradeKeeper.GetNextPlan(ctx); err == nil && np != nil {
+		s.NextPlanDue = np.UpgradeTime <= c.Time.Unix()
+	}
 	s.Compound = len(mk.GetAllCompoundInfo(ctx))
 	s.Rewards = len(mk.GetAllDelegatorRewards(ctx))
 	return s
@@ -463,10 +467,10 @@ func snapCoq(s Snap) string {
 	for _, e := range s.DVotes {
 		dv = append(dv, hx.Pair(hx.Z(e[0]), hx.Z(e[1])))
 	}
-	return fmt.Sprintf("(mkSnap %s %s %s %s %s %s %s %s (mkMs %s %s %s %s %d %d) %s %s %s %s %s %s %s)", hx.List(roles), zlist(s.RoleInfos), hx.List(idx), hx.ZU(s.NextRole),
+	return fmt.Sprintf("(mkSnap %s %s %s %s %s %s %s %s (mkMs %s %s %s %s %d %d) %s %s %s %s %s %s %s %s)", hx.List(roles), zlist(s.RoleInfos), hx.List(idx), hx.ZU(s.NextRole),
 		hx.List(props), zlist(s.ActiveQ), zlist(s.EnactQ), hx.ZU(s.NextProp),
 		hx.ZU(s.LastPool), hx.ZU(s.LastUndel), zlist(s.Pools), zlist(s.Undels), s.Delegators, s.Compound,
-		hx.List(idr), hx.List(idi), hx.ZU(s.IdLast), hx.Z(s.DTreasury), hx.Z(s.DSnap), hx.List(dv), hx.Z(s.DProposer))
+		hx.List(idr), hx.List(idi), hx.ZU(s.IdLast), hx.Z(s.DTreasury), hx.Z(s.DSnap), hx.List(dv), hx.Z(s.DProposer), hx.B(s.NextPlanDue))
 }
 
 func Emit(out hx.Out, cases []Case, dist hx.Counter) {
